@@ -22,7 +22,7 @@ META = {
 
 KNOBS = dict(closures=True, closure_bias=0.1, defs=2, max_depth=2, block_len=(1, 4), wrap_target=True)
 POOLS = [(1, 1), (1, 256), (2, 2), (4, 256)]
-MARK = re.compile(r"println\(\(\(0 \+ (.*)\)\)\.inspect\)$")
+MARK = re.compile(r"println\(\(\(0 \+ \(1 \* (.*)\)\)\)\.inspect\)$")
 CALLW = re.compile(r"^println\(\((\w+)\.w\((.*)\)\)\.inspect\)$")
 
 
@@ -32,7 +32,14 @@ def variants(src):
     gen, asy = [], []
     in_w = False
     found = False
+    clo_indent = None      # indentation of the line that opened a multi-line closure inside w
     for ln in lines:
+        ind = len(ln) - len(ln.lstrip(" "))
+        if clo_indent is not None and ind <= clo_indent and ln.strip() == "end":
+            clo_indent = None
+            gen.append(ln)
+            asy.append(ln)
+            continue
         if ln.startswith("  def w("):
             in_w = True
             found = True
@@ -43,8 +50,10 @@ def variants(src):
             in_w = False
         m = MARK.search(ln)
         # a yield cannot sit inside a closure body: the generator only marks statement-level prints of w
-        if in_w and m and "->" not in ln:
-            gen.append(ln[:m.start()] + f"yield (0 + {m.group(1)})")
+        if in_w and clo_indent is None and ln.rstrip().endswith("->"):
+            clo_indent = ind
+        if in_w and m and "->" not in ln and clo_indent is None:
+            gen.append(ln[:m.start()] + f"yield (0 + (1 * {m.group(1)}))")
             asy.append(ln)
             continue
         c = CALLW.match(ln)
